@@ -7,6 +7,7 @@ oracle (vf/refmatch.py for find; the LoopIR statement lists for navigation).
 """
 
 import json
+import re
 import shutil
 import tempfile
 import time
@@ -92,9 +93,36 @@ def _mk_caller(mod):
             "def _c16_call_find_all(obj, pat):\n    return obj.find_all(pat)\n",
             ns,
         )
+    if "_c16_call_find_uq" not in ns:
+        # one source line issues the same pattern *text* with different values of the python
+        # variables it unquotes ({uq0}, {uq1} are evaluated in this frame)
+        exec("def _c16_call_find_uq(obj, pat, uq0, uq1):\n    return obj.find_all(pat)\n", ns)
     f = ns["_c16_call_find"]
     f.find_all = ns["_c16_call_find_all"]
+    f.find_uq = ns["_c16_call_find_uq"]
     return f
+
+
+_NUM = re.compile(r"(?<![\w.#{])(\d+\.\d+|\d+)(?![\w.}])")
+
+
+def unquoted_form(pattern):
+    """the same pattern with its first (two) numeric literals written as unquotes of python
+    variables; returns (text, [values]) or None when the pattern has no literal"""
+    vals = []
+
+    def sub(m):
+        if len(vals) >= 2:
+            return m.group(0)
+        t = m.group(1)
+        vals.append(float(t) if "." in t else int(t))
+        return "{uq%d}" % (len(vals) - 1)
+
+    body, sep, sel = pattern.partition("#")
+    text = _NUM.sub(sub, body) + sep + sel
+    if not vals:
+        return None
+    return text, vals
 
 
 # --------------------------------------------------------------------------- #
@@ -958,6 +986,38 @@ def _find_case(W, p, caller, src, procname, past, pattern, pclass, scope_path=No
         outcome = "m" if info["real"] else "n"
         nontrivial = bool(info["sure_match"]) or bool(mutated and info["sure_nomatch"])
         ctx.distinct(common.jhash([shape, pclass, outcome]), nontrivial)
+    # the pattern language lets a pattern unquote python values of the caller ("x[_] = {v}"): the
+    # literal and the unquoted spelling must select the same nodes, whatever the same source line
+    # asked for before
+    uq = unquoted_form(pattern) if (block_scope is None and expr_scope is None and api in (None, "find_all")) else None
+    if uq is not None and not viol:
+        text, vals = uq
+        X = _exo()
+        try:
+            obj = _scope_cursor(p, scope_path) if scope_path is not None else p
+            a = _real_find(p, caller, pattern, "find_all", scope_path)
+            try:
+                b = ("ok", caller.find_uq(obj, text, vals[0], vals[1] if len(vals) > 1 else None))
+            except X.SchedulingError as e:
+                b = ("none", str(e)[:200])
+            except Exception as e:  # noqa
+                b = ("exc", type(e).__name__, str(e)[:300])
+            W.stat("unquote_checks")
+            hist = W.__dict__.setdefault("uq_hist", {})
+            prior = list(hist.get(text, []))[-3:]
+            hist.setdefault(text, []).append(vals)
+            ka = [key_of(c) for c in a[1]] if a[0] == "ok" else a[0]
+            kb = [key_of(c) for c in b[1]] if b[0] == "ok" else b[0]
+            if a[0] == "exc" or b[0] == "exc":
+                W.stat("unquote_exception")
+            elif ka != kb:
+                sig = {"monitor": "find", "kind": "unquote_differs_from_literal", "pclass": _coarse_class(pclass)}
+                viol = [{"sig": sig, "detail": f"find_all({pattern!r}) -> {ka}; find_all({text!r}) with uq={vals} -> {kb}"}]
+                info["uq"] = [text, vals, prior]
+            elif a[0] == "ok":
+                W.stat("unquote_checks_with_match")
+        except Exception as e:  # noqa
+            W.stat("unquote_monitor_error:" + type(e).__name__)
     for v in viol:
         case = {
             "kind": "find", "src": src, "proc": procname, "pattern": pattern, "past": past,
@@ -968,6 +1028,9 @@ def _find_case(W, p, caller, src, procname, past, pattern, pclass, scope_path=No
             "api": api, "selects": [list(s) if s else None for s in sels],
             "sig": v["sig"], "detail": v["detail"],
         }
+        if info.get("uq"):
+            # replay needs the process history: earlier values unquoted by the same pattern text
+            case["uq"] = info["uq"]
         W.report(v["sig"], case)
     return viol, info
 
@@ -1422,6 +1485,23 @@ def _replay_find(case, mod):
         bs = (tuple(tuple(x) for x in bs[0]), bs[1], bs[2], bs[3])
     sels = [tuple(s) if s else None for s in case.get("selects") or []]
     es = tuple(tuple(x) for x in case["expr_scope"]) if case.get("expr_scope") else None
+    if case.get("uq"):
+        text, vals, prior = case["uq"]
+        obj = _scope_cursor(p, sp) if sp is not None else p
+
+        def uqcall(vs):
+            try:
+                return [key_of(c) for c in caller.find_uq(obj, text, vs[0], vs[1] if len(vs) > 1 else None)]
+            except Exception as e:  # noqa
+                return type(e).__name__
+
+        for pv in prior:
+            uqcall(pv)
+        a = _real_find(p, caller, case["pattern"], "find_all", sp)
+        ka = [key_of(c) for c in a[1]] if a[0] == "ok" else ("SchedulingError" if a[0] == "none" else a[1])
+        kb = uqcall(vals)
+        return {"reproduced": ka != kb, "sig": case["sig"],
+                "detail": f"after unquoting {prior} on the same line: literal {case['pattern']!r} -> {ka}; {text!r} with {vals} -> {kb}"}
     viol, info = check_find(p, caller, case["past"], case["pattern"], case["pclass"], sp, bs,
                             case.get("api"), selects=sels, expr_scope=es)
     hit = [v for v in viol if v["sig"] == case["sig"]]
